@@ -71,3 +71,30 @@ Theorem c16_serve_request_ignores_forwarding :
   serve_request mac matches parse_uri_path parse_ip decode_session ep d r'.
 Proof. exact serve_request_ignores_forwarding. Qed.
 Print Assumptions c16_serve_request_ignores_forwarding.
+
+(* ---- the forwarding headers are read nowhere else ---- *)
+From V.Gen Require Surface.
+From V.Proofs Require SurfaceExpected.
+
+(* the inventory REGENERATED on this run from all non-test sources - every mention of a forwarding or
+   client-IP header name, of the constants naming them, of the client-IP parser and of the
+   reverse-proxy flag - is exactly the reviewed list: a new reader re-opens this obligation *)
+Theorem c16_forwarded_surface_pinned :
+  map fst SurfaceExpected.expected_forwarded_surface = Surface.forwarded_surface.
+Proof. vm_compute. reflexivity. Qed.
+Print Assumptions c16_forwarded_surface_pinned.
+
+Theorem c16_forwarded_surface_reviewed :
+  forallb (fun e => SurfaceExpected.forward_reviewed (snd e)) SurfaceExpected.expected_forwarded_surface = true.
+Proof. vm_compute. reflexivity. Qed.
+Print Assumptions c16_forwarded_surface_reviewed.
+
+(* the accessors of pkg/requests/util still have the shape the model of c16_accessors assumes
+   (header value, replaced by the request's own value unless IsProxied and non-empty), there are
+   three of them, and IsProxied is the scope's flag *)
+Theorem c16_accessor_shapes :
+  map (fun e => (fst (fst e), snd e)) Surface.accessor_shapes =
+    [("GetRequestProto"%string, true); ("GetRequestHost"%string, true); ("GetRequestURI"%string, true)] /\
+  Surface.is_proxied_reads_scope_flag = true.
+Proof. split; vm_compute; reflexivity. Qed.
+Print Assumptions c16_accessor_shapes.
